@@ -25,19 +25,31 @@ type c02Case struct {
 	Strict bool        `json:"strict,omitempty"`
 	Child  bool        `json:"child,omitempty"`  // also render in a fresh process
 	Delims bool        `json:"delims,omitempty"` // every engine is configured with Delims("<<", ">>", "<%", "%>") and the template is written with them
+	Reconf bool        `json:"reconf,omitempty"` // with Delims: every other engine is used once before it is configured
+	Hy     []bool      `json:"hy,omitempty"`     // whitespace-control hyphens on the generated part of the template
 }
 
-// c02Engine makes an engine in the case's configuration.
-func c02Engine(c *c02Case) *liquid.Engine {
+// c02Engine makes an engine in the case's configuration; used says whether it has been used under
+// another configuration before (which must not matter).
+func c02Engine(c *c02Case, used ...bool) *liquid.Engine {
 	e := newEngine(nil)
 	if c.Strict {
 		e.StrictVariables()
 	}
 	if c.Delims {
+		if c.Reconf && len(used) > 0 && used[0] {
+			// the engine has parsed and rendered under the default configuration before it is given its own
+			_, _ = e.ParseAndRenderString("x{{ 1 }}{% assign q = 2 %}", nil)
+		}
 		e.Delims("<<", ">>", "<%", "%>")
 	}
 	return e
 }
+
+// plainWriter is an io.Writer that is nothing else.
+type plainWriter struct{ b []byte }
+
+func (w *plainWriter) Write(p []byte) (int, error) { w.b = append(w.b, p...); return len(p), nil }
 
 var c02Snippets = []string{
 	"{% for kv in m %}{{ kv[0] }}={{ kv[1] }};{% endfor %}",
@@ -181,6 +193,9 @@ func permute(s *hx.Spec, variant int) {
 
 func (c *c02Case) source() string {
 	src := c.P.Source()
+	if len(c.Hy) > 0 {
+		src = hx.Spell(hx.MergeText(hx.Tokens(c.P.Nodes, nil)), hx.DefaultDelims, c.Hy)
+	}
 	for _, i := range c.Extra {
 		src += "\n" + c02Snippets[i%len(c02Snippets)]
 	}
@@ -208,7 +223,9 @@ var c02Deterministic = hx.Define("c02.entry-points", func(c *c02Case, s *hx.Sub)
 		keep = append(keep, b)
 		return b
 	}
-	engine := func() *liquid.Engine { return c02Engine(c) }
+	// with Reconf, every other engine has been used under the default configuration before it got its own
+	nEngines := 0
+	engine := func() *liquid.Engine { nEngines++; return c02Engine(c, nEngines%2 == 0) }
 	type res struct{ label, value string }
 	var results []res
 	add := func(label string, f func() (string, error)) *hx.Violation {
@@ -276,6 +293,24 @@ var c02Deterministic = hx.Define("c02.entry-points", func(c *c02Case, s *hx.Sub)
 					return "", e
 				}
 				return buf.String(), nil
+			})
+		},
+		func() *hx.Violation {
+			return add("Template.FRender into a strings.Builder", func() (string, error) {
+				var sb strings.Builder
+				if e := tpl.FRender(&sb, binds()); e != nil {
+					return "", e
+				}
+				return sb.String(), nil
+			})
+		},
+		func() *hx.Violation {
+			return add("Engine.ParseAndFRender into a plain io.Writer", func() (string, error) {
+				w := &plainWriter{}
+				if e := engine().ParseAndFRender(w, []byte(src), binds()); e != nil {
+					return "", e
+				}
+				return string(w.b), nil
 			})
 		},
 		func() *hx.Violation {
@@ -564,6 +599,11 @@ func TestC02(t *testing.T) {
 		c := &c02Case{P: hx.GenProgram(t, prof), Strict: rapid.IntRange(0, 5).Draw(t, "strict") == 0}
 		c.Extra = rapid.SliceOfN(rapid.IntRange(0, len(c02Snippets)-1), 1, 4).Draw(t, "extra")
 		c.Delims = rapid.IntRange(0, 4).Draw(t, "delims") == 2
+		c.Reconf = c.Delims && rapid.Bool().Draw(t, "reconf")
+		if rapid.IntRange(0, 2).Draw(t, "hyphens") == 0 {
+			k := hx.CountTags(hx.Tokens(c.P.Nodes, nil))
+			c.Hy = rapid.SliceOfN(rapid.Bool(), 2*k, 2*k).Draw(t, "hy")
+		}
 		if rapid.IntRange(0, 60).Draw(t, "child") == 0 && nChild < env.Pick(60, 600) {
 			c.Child = true
 			nChild++
